@@ -22,7 +22,7 @@
 //                        erase(begin+A), insert(begin+POS, COUNT, v), insert(begin+POS, v), resize(COUNT)
 //         | z            sbepp::size_bytes(current view)
 // For every n (all: 0..|image|) the first n bytes of the image are placed in a buffer of EXACTLY n
-// accessible bytes (the byte at offset n and the following 8 GiB are PROT_NONE, so is the page
+// accessible bytes (the byte at offset n and the following 1 TiB are PROT_NONE, so is the page
 // before the buffer's first page) and every path is run on a fresh copy under proto::guarded.
 // (cursor traversals: see `ctrav` below)
 // Answer: one block per n joined by ',', one character per path:
@@ -105,7 +105,7 @@ inline path parse_path(const std::string& s)
 // n accessible bytes ending exactly at a large PROT_NONE region
 struct gbuf
 {
-    static constexpr std::size_t tail = std::size_t{1} << 33;
+    static constexpr std::size_t tail = std::size_t{1} << 40;
     char* base{};
     std::size_t total{};
     char* p{};
@@ -115,9 +115,14 @@ struct gbuf
     {
         const std::size_t page = static_cast<std::size_t>(sysconf(_SC_PAGESIZE));
         const std::size_t pages = (size + page - 1) / page + 1;
-        total = (pages + 1) * page + tail;
-        base = static_cast<char*>(
-            mmap(nullptr, total, PROT_NONE, MAP_PRIVATE | MAP_ANONYMOUS | MAP_NORESERVE, -1, 0));
+        // the largest PROT_NONE tail the address-space limit allows (1 TiB, else smaller)
+        base = static_cast<char*>(MAP_FAILED);
+        for(std::size_t t = tail; t >= (std::size_t{1} << 24) && base == MAP_FAILED; t >>= 4)
+        {
+            total = (pages + 1) * page + t;
+            base = static_cast<char*>(
+                mmap(nullptr, total, PROT_NONE, MAP_PRIVATE | MAP_ANONYMOUS | MAP_NORESERVE, -1, 0));
+        }
         if(base == MAP_FAILED)
         {
             std::_Exit(72);
